@@ -29,11 +29,13 @@ def bitSetS (cs : List (List Seg)) : List Seg :=
 
 def FpQuery.segs (q : FpQuery) : List Seg :=
   [.raw (ascii "SELECT fingerprint FROM " ++ ascii q.table ++ ascii " WHERE ")] ++
-    logicalS "and" [logicalS (fnOf "Ge") [[.raw (ascii "date")], [.str q.fromDate]],
-                    [.raw (ascii "type IN (" ++ ascii (toString q.tp) ++ ascii ",0)")],
-                    logicalS "or" (q.conds.map Cond.segs)] ++
-    [.raw (ascii " GROUP BY fingerprint HAVING ")] ++
-    logicalS "and" [logicalS (fnOf "Eq") [bitSetS (q.conds.map Cond.segs), [.raw (ascii (toString (havingConst q.conds.length)))]]]
+    logicalS "and" ([logicalS (fnOf "Ge") [[.raw (ascii "date")], [.str q.fromDate]],
+                     [.raw (ascii "type IN (" ++ ascii (toString q.tp) ++ ascii ",0)")]] ++
+                    (if q.useOr then [logicalS "or" (q.conds.map Cond.segs)] else [])) ++
+    [.raw (ascii " GROUP BY fingerprint")] ++
+    (if q.conds.isEmpty then [] else
+      [.raw (ascii " HAVING ")] ++
+      logicalS "and" [logicalS (fnOf "Eq") [bitSetS (q.conds.map Cond.segs), [.raw (ascii (toString (Bits.requiredConst q.required)))]]])
 
 def scanSegs (fromNs toNs : Int) : List Seg :=
   logicalS "and" [logicalS Gen.PromSelect.scanLower [[.raw (ascii "samples.timestamp_ns")], [.raw (ascii (toString fromNs))]],
@@ -57,10 +59,10 @@ def PQuery.segs (q : PQuery) : List Seg :=
     logicalS "and" ([logicalS (fnOf "Ge") [[.raw (ascii "date")], [.str q.fromDate]],
                      logicalS (fnOf "Le") [[.raw (ascii "date")], [.str q.toDate]]] ++
       (if q.globals.isEmpty then [] else [logicalS "and" (q.globals.map PCond.segs)]) ++
-      (if q.kvs.isEmpty then [] else [logicalS "or" (q.kvs.map PCond.segs)])) ++
+      (if q.kvs.isEmpty || !q.useOr then [] else [logicalS "or" (q.kvs.map PCond.segs)])) ++
     [.raw (ascii " GROUP BY fingerprint")] ++
     (if q.kvs.isEmpty then [] else
       [.raw (ascii " HAVING ")] ++ logicalS "and" [logicalS (fnOf "Eq")
-        [bitSetS (q.kvs.map PCond.segs), [.raw (ascii (toString (havingConst q.kvs.length)))]]])
+        [bitSetS (q.kvs.map PCond.segs), [.raw (ascii (toString (Bits.requiredConst q.kvRequired)))]]])
 
 end Qryn.Prof
